@@ -264,7 +264,7 @@ BASE_PERIODS = [(1, 1000000000), (1, 1000000), (1, 1000), (1, 1), (60, 1), (3600
 
 
 def gen_periods(rng, tier):
-    n_extra = 2 if tier == "quick" else 11
+    n_extra = 1 if tier == "quick" else 10
     out = list(BASE_PERIODS)
     # non-reduced spellings (std::ratio normalises; specialisation matching does not)
     out.append(rng.choice([(2, 4), (120, 2), (1000, 1000000), (7200, 2), (3, 180), (10, 10)]))
@@ -272,10 +272,18 @@ def gen_periods(rng, tier):
     kb = (1 << 31) // THRESH                      # 1000225: largest k that passes for int32
     cands = rng.choice([[(kb, 1), (kb + 1, 1)], [(1, kb), (1, kb + 1)]])     # both sides of the threshold, always
     out += [c for c in cands if cheap(c[0]) and cheap(c[1])]
+    # the same boundary for int64, realised against nanoseconds: k = A * 10^9 with max(int64)/k == 2147 exactly (largest
+    # cheap A with 2147*k <= max < 2148*k) and the smallest cheap A' above the threshold (2147*k' > max >= 2146*k')
+    k64 = ((1 << 63) - 1) // THRESH
+    a_acc = next(a for a in range(k64 // 10 ** 9, ((1 << 63) - 1) // (THRESH + 1) // 10 ** 9, -1) if cheap(a))
+    a_rej = next(a for a in range(k64 // 10 ** 9 + 1, ((1 << 63) - 1) // (THRESH - 1) // 10 ** 9) if cheap(a))
+    assert THRESH * a_acc * 10 ** 9 <= (1 << 63) - 1 < (THRESH + 1) * a_acc * 10 ** 9
+    assert (THRESH - 1) * a_rej * 10 ** 9 <= (1 << 63) - 1 < THRESH * a_rej * 10 ** 9
+    out += [(a_acc, 1), (a_rej, 1)]
     pool = [(1, 10), (1, 100), (10, 1), (1000, 1), (604800, 1), (1, 24), (1, 30), (1, 25), (1, 48000), (1, 44100),
             (1, 90000), (125, 3), (1, 1024), (1, 65536), (1024, 1), (3, 2), (2, 3), (7, 1), (1, 7), (31556952, 1),
             (1, 1 << 20), (1, 1 << 30), (1000000, 1), (1, 29970), (1001, 60000), (1, 705600000), (9, 5), (12, 25)]
-    while len(out) < len(BASE_PERIODS) + 3 + n_extra:
+    while len(out) < len(BASE_PERIODS) + 5 + n_extra:
         r = rng.random()
         if r < 0.5:
             c = rng.choice(pool)
@@ -398,7 +406,9 @@ def gen_value_pairs(rng, r1, p1, r2, p2, count):
         for b in (big / k2, -big / k2, big / 2):
             pairs.append((val(r1, rng.choice([0, 1])), val(r2, b)))
         pairs.append((val(r1, big / k1 / 2 if k1 > 1 else big / 2), val(r2, big / k2 / 2 if k2 > 1 else big / 2)))
-    while len(pairs) < count:
+    sampled = pairs
+    pairs = []
+    while len(sampled) + len(pairs) < count:
         def rnd(rep):
             if is_int(rep):
                 lo, hi = INT_RANGE[rep]
@@ -411,12 +421,55 @@ def gen_value_pairs(rng, r1, p1, r2, p2, count):
                 return rng.randrange(lo, hi + 1)
             return rng.choice(float_candidates(rng, rep))
         pairs.append((rnd(r1), rnd(r2)))
+    sampled = sampled + pairs
+    rng.shuffle(sampled)
+
+    # ---- permanent directed list: generated for EVERY pair instance in every run and never trimmed ----
+    def lim(rep):
+        if is_int(rep):
+            return INT_RANGE[rep]
+        prec, emax = FMT[rep]
+        big = (2 - Fraction(2) ** (1 - prec)) * Fraction(2) ** emax
+        return (-big, big)
+    (lo1, hi1), (lo2, hi2) = lim(r1), lim(r2)
+    directed = [(0, 0), (1, 1), (-1, 1), (1, -1), (-1, -1), (lo1, 0), (hi1, 0), (0, lo2), (0, hi2), (hi1, hi2), (lo1, lo2),
+                (hi1, lo2), (lo1, hi2), (hi1, 1), (1, hi2), (lo1, -1), (-1, lo2)]
+    if not is_int(r1):
+        tiny = Fraction(2) ** (2 - FMT[r1][1] - FMT[r1][0])
+        directed += [(tiny, 0), (-tiny, 1)]
+    if not is_int(r2):
+        tiny = Fraction(2) ** (2 - FMT[r2][1] - FMT[r2][0])
+        directed += [(0, tiny), (1, -tiny)]
+    # equal scaled counts across the two periods (x1*k1 == x2*k2 == lcm) and their neighbours, both signs
+    g = math.gcd(k1, k2)
+    e1, e2 = k2 // g, k1 // g
+    directed += [(e1, e2), (-e1, -e2), (e1 + 1, e2), (e1, e2 + 1), (e1 - 1, e2), (2 * e1, 2 * e2), (e1, -e2)]
+    if is_int(cr):
+        clo, chi = INT_RANGE[cr]
+        # scaled count exactly at / one beyond the edge of the common rep, for each operand
+        directed += [(chi // k1, 0), (chi // k1 + 1, 0), (-((-clo) // k1), 0), (-((-clo) // k1) - 1, 0),
+                     (0, chi // k2), (0, chi // k2 + 1), (0, -((-clo) // k2)), (0, -((-clo) // k2) - 1)]
+        # sum / difference exactly at / one beyond the edge
+        a = (chi // 2) // k1
+        rest = chi - a * k1
+        directed += [(a, rest // k2), (a, rest // k2 + 1), (-a, -(rest // k2) - 1), (-a, -(rest // k2) - 2),
+                     (a, -(rest // k2)), (a, -(rest // k2) - 1)]
+    else:
+        # integral operand converted to a floating common rep: first integers that do not survive the conversion
+        for idx, rep in ((0, r1), (1, r2)):
+            if is_int(rep):
+                for v in ((1 << 24) + 1, -(1 << 24) - 1, (1 << 53) + 1, (1 << 31) - 1):
+                    directed.append((v, 1) if idx == 0 else (1, v))
+        prec, emax = FMT[cr]
+        big = (2 - Fraction(2) ** (1 - prec)) * Fraction(2) ** emax
+        directed += [(big / k1, 0), (big / k1 * 2, 0), (0, big / k2), (0, -big / k2 * 2), (big / k1 / 2, big / k2 / 2)]
+    directed = [(val(r1, x), val(r2, y)) for (x, y) in directed]
     seen, out = set(), []
-    for pr in pairs:
+    for pr in directed + sampled[:count]:
         if pr not in seen:
             seen.add(pr)
             out.append(pr)
-    return out[:max(count, 1) + 24]
+    return out
 
 
 def rt_values(rng, rep, count):
@@ -1371,8 +1424,17 @@ def explore(tier, seed, rng, wd):
     # ---- negative probes ------------------------------------------------------------------------
     nprobe = 6 if tier == "quick" else 24
     probes = []
+    def closeness(pr):
+        a, b = pr["a"], pr["b"]
+        k1, k2, _ = scale_factors((a["n"], a["d"]), (b["n"], b["d"]))
+        return max(k1, k2) * THRESH / INT_RANGE.get(common_rep(a["rep"], b["rep"]), (0, 1))[1]
     rng.shuffle(rejected)
-    for pr in rejected[:nprobe]:
+    near = sorted(rejected, key=closeness)
+    picked = []
+    for crep in ("i32", "i64"):           # the rejected pair closest to the 2147 threshold, for each integral common rep
+        picked += [p for p in near if common_rep(p["a"]["rep"], p["b"]["rep"]) == crep][:2]
+    picked += [p for p in rejected if p not in picked][:max(0, nprobe - len(picked))]
+    for pr in picked:
         probes.append(("op", pr["a"], pr["b"], pr["side"], pr["spell"], "mixed operation rejected by the policy"))
     falses = [(t, s) for (t, s) in cells_ok if amodel[(t, s)]["dur"] == "false"]
     rng.shuffle(falses)
